@@ -245,7 +245,7 @@ Inductive pt :=
 | Rep (body : pt) (count : expr) (cs : list constr) (ms : list (expr * expr))
 | For (body : pt) (idx : ident) (start stop step : expr) (cs : list constr) (ms : list (expr * expr))
 | Map (inner : pt) (m : list (ident * expr)) (cs : list constr)
-| Ren (inner : pt) (r : list (ident * ident))                                 (* the channel_mapping of a MappingPT:
+| Ren (inner : pt) (r : list (ident * option ident))                               (* the channel_mapping of a MappingPT:
                                                                                  inner channel -> outer channel *)
 | ParT (inner : pt) (owt : list (ident * expr)).                              (* ParallelChannelPT whose values are all
                                                                                  time dependent: channel, e for e*t *)
@@ -261,9 +261,10 @@ Definition kept (dr : list ident) (l : list (ident * expr)) : list expr :=
   map snd (filter (fun ce => negb (mem (fst ce) dr)) l).
 
 (* MappingPT.get_updated_channel_mapping: an inner channel is mapped to None iff the outer channel it is renamed to
-   is (channels without entry keep their name) *)
-Definition ren_drop (r : list (ident * ident)) (dr : list ident) : list ident :=
-  filter (fun c => negb (is_some (assoc c r))) dr ++ map fst (filter (fun cr => mem (snd cr) dr) r).
+   is (channels without entry keep their name), or the MappingPT itself maps it to None (round 4) *)
+Definition ren_drop (r : list (ident * option ident)) (dr : list ident) : list ident :=
+  filter (fun c => negb (is_some (assoc c r))) dr
+  ++ map fst (filter (fun cr => match snd cr with Some o => mem o dr | None => true end) r).
 
 Definition remove_id (x : ident) (l : list ident) : list ident := filter (fun y => negb (N.eqb y x)) l.
 
